@@ -15,6 +15,8 @@ Section DG.
   Notation build := (build_packet_from_datagram deserialize from_dto).
   Notation send := (send_packet serialize to_dto drop_empty).
   Notation recv := (recv_packet deserialize from_dto).
+  Notation recvc := (recv_packet_cancelled deserialize from_dto).
+  Notation ires := (item_result deserialize from_dto).
   Notation ops := (do_ops serialize deserialize to_dto from_dto drop_empty).
   Notation recvn := (recv_n deserialize from_dto).
 
@@ -40,8 +42,14 @@ Section DG.
   Lemma build_not_nodata d : build d <> RNoData.
   Proof. unfold build_packet_from_datagram. destruct (deserialize d); [destruct (from_dto p)| |]; discriminate. Qed.
 
+  Lemma ires_not_nodata i : ires i <> RNoData /\ ires i <> RCancelled.
+  Proof.
+    destruct i; simpl; [|split; discriminate].
+    unfold build_packet_from_datagram. destruct (deserialize d); [destruct (from_dto p)| |]; split; discriminate.
+  Qed.
+
   Lemma recvn_map n : forall t, n <= length (inq t) ->
-    recvn n t = ({| inq := skipn n (inq t); outq := outq t |}, map build (firstn n (inq t))).
+    recvn n t = ({| inq := skipn n (inq t); outq := outq t |}, map ires (firstn n (inq t))).
   Proof.
     induction n as [|n IH]; intros t Hn.
     - simpl. destruct t; reflexivity.
@@ -49,29 +57,26 @@ Section DG.
       rewrite IH by (simpl in *; lia). simpl. reflexivity.
   Qed.
 
-  Definition is_data (r : rres Q) : bool := match r with RNoData => false | _ => true end.
+  (* outcomes that consumed a queue item *)
+  Definition is_data (r : rres Q) : bool := match r with RNoData | RCancelled => false | _ => true end.
 
-  Fixpoint arrivals_of (os : list (op (Q := Q))) : list bytes :=
+  (* everything that enters the receive queue during an op sequence, in order *)
+  Fixpoint arrivals_of (os : list (op (Q := Q))) : list item :=
     match os with
     | [] => []
-    | OpArrive d :: r => d :: arrivals_of r
+    | OpArrive d :: r => IData d :: arrivals_of r
+    | OpSockError :: r => IErr :: arrivals_of r
     | _ :: r => arrivals_of r
     end.
 
-  Lemma map_build_is_data l : filter is_data (map build l) = map build l.
-  Proof.
-    induction l as [|d l IH]; simpl; [reflexivity|]. rewrite IH.
-    pose proof (build_not_nodata d). destruct (build d); simpl; congruence.
-  Qed.
-
   Lemma ops_map os : forall t,
     exists k, k <= length (inq t ++ arrivals_of os) /\
-      filter is_data (snd (ops t os)) = map build (firstn k (inq t ++ arrivals_of os)) /\
+      filter is_data (snd (ops t os)) = map ires (firstn k (inq t ++ arrivals_of os)) /\
       inq (fst (ops t os)) = skipn k (inq t ++ arrivals_of os).
   Proof.
     induction os as [|o os IH]; intros t.
     - exists 0. simpl. rewrite app_nil_r. repeat split; lia.
-    - simpl. destruct o as [q| |d].
+    - simpl. destruct o as [q| |d| |].
       + (* send *)
         simpl. destruct (IH (send t q)) as (k & Hk & Hf & Hi).
         destruct (send_at_most_one t q) as [Hin _]. rewrite Hin in *.
@@ -81,19 +86,34 @@ Section DG.
         * assert (Hr : recv t = (t, RNoData)) by (unfold recv_packet; rewrite Ein; reflexivity).
           destruct (IH t) as (k & Hk & Hf & Hi). rewrite Ein in *.
           simpl. rewrite Hr. destruct (ops t os) as [t2 r2] eqn:E. simpl in *. exists k. auto.
-        * assert (Hr : recv t = ({| inq := ds; outq := outq t |}, build d)) by (unfold recv_packet; rewrite Ein; reflexivity).
+        * assert (Hr : recv t = ({| inq := ds; outq := outq t |}, ires d)) by (unfold recv_packet; rewrite Ein; reflexivity).
           destruct (IH {| inq := ds; outq := outq t |}) as (k & Hk & Hf & Hi). simpl in *.
           rewrite Hr. destruct (ops {| inq := ds; outq := outq t |} os) as [t2 r2] eqn:E. simpl in *.
           exists (S k). simpl. repeat split; [lia| |exact Hi].
-          pose proof (build_not_nodata d). destruct (build d) eqn:Eb; simpl; try congruence; rewrite Hf; reflexivity.
+          destruct (ires_not_nodata d). destruct (ires d) eqn:Eb; simpl; try congruence; rewrite Hf; reflexivity.
       + (* arrive *)
-        destruct (IH {| inq := inq t ++ [d]; outq := outq t |}) as (k & Hk & Hf & Hi). simpl in *.
-        destruct (ops {| inq := inq t ++ [d]; outq := outq t |} os) as [t2 r2] eqn:E. simpl in *.
+        destruct (IH {| inq := inq t ++ [IData d]; outq := outq t |}) as (k & Hk & Hf & Hi). simpl in *.
+        destruct (ops {| inq := inq t ++ [IData d]; outq := outq t |} os) as [t2 r2] eqn:E. simpl in *.
+        rewrite <- app_assoc in *. simpl in *. exists k. auto.
+      + (* cancelled recv *)
+        destruct (inq t) as [|d ds] eqn:Ein.
+        * assert (Hr : recvc t = (t, RCancelled)) by (unfold recv_packet_cancelled; rewrite Ein; reflexivity).
+          destruct (IH t) as (k & Hk & Hf & Hi). rewrite Ein in *.
+          simpl. rewrite Hr. destruct (ops t os) as [t2 r2] eqn:E. simpl in *. exists k. auto.
+        * assert (Hr : recvc t = ({| inq := ds; outq := outq t |}, ires d))
+            by (unfold recv_packet_cancelled; rewrite Ein; reflexivity).
+          destruct (IH {| inq := ds; outq := outq t |}) as (k & Hk & Hf & Hi). simpl in *.
+          rewrite Hr. destruct (ops {| inq := ds; outq := outq t |} os) as [t2 r2] eqn:E. simpl in *.
+          exists (S k). simpl. repeat split; [lia| |exact Hi].
+          destruct (ires_not_nodata d). destruct (ires d) eqn:Eb; simpl; try congruence; rewrite Hf; reflexivity.
+      + (* socket error *)
+        destruct (IH {| inq := inq t ++ [IErr]; outq := outq t |}) as (k & Hk & Hf & Hi). simpl in *.
+        destruct (ops {| inq := inq t ++ [IErr]; outq := outq t |} os) as [t2 r2] eqn:E. simpl in *.
         rewrite <- app_assoc in *. simpl in *. exists k. auto.
   Qed.
 
-  Lemma isolated ds ds' o o' i :
-    i < length ds -> i < length ds' -> nth i ds [] = nth i ds' [] ->
+  Lemma isolated (ds ds' : list item) o o' i :
+    i < length ds -> i < length ds' -> nth i ds IErr = nth i ds' IErr ->
     nth i (snd (recvn (length ds) {| inq := ds; outq := o |})) RNoData =
     nth i (snd (recvn (length ds') {| inq := ds'; outq := o' |})) RNoData.
   Proof.
@@ -101,9 +121,9 @@ Section DG.
     rewrite (recvn_map (length ds) {| inq := ds; outq := o |}) by (simpl; apply Nat.le_refl).
     rewrite (recvn_map (length ds') {| inq := ds'; outq := o' |}) by (simpl; apply Nat.le_refl).
     simpl. rewrite !firstn_all.
-    rewrite (nth_indep _ RNoData (build [])) by (rewrite map_length; assumption).
-    rewrite (nth_indep (map build ds') RNoData (build [])) by (rewrite map_length; assumption).
-    rewrite (map_nth build ds [] i), (map_nth build ds' [] i). apply f_equal. exact He.
+    rewrite (nth_indep _ RNoData (ires IErr)) by (rewrite map_length; assumption).
+    rewrite (nth_indep (map ires ds') RNoData (ires IErr)) by (rewrite map_length; assumption).
+    rewrite (map_nth ires ds IErr i), (map_nth ires ds' IErr i). apply f_equal. exact He.
   Qed.
 End DG.
 
